@@ -147,4 +147,25 @@ Section WithH.
     rewrite (parse_challenge_rendered pre mid post xs Hpre Hmid Hpost Hok Ht), Hc, Ha.
     unfold render_challenge. destruct pre; reflexivity.
   Qed.
+
+  (* sequences through ONE middleware: whatever challenges were answered before (same realm with
+     another hash family, other realms, session variants ...) and whatever follows, a call whose
+     own challenge is supported is answered with a header the verifier accepts for THAT challenge *)
+  Theorem session_every_answer_accepted user pass before after first rsp cnonce c :
+    r_err rsp = false -> r_status rsp = 401%N -> r_chal rsp <> [] ->
+    parse_challenge (r_chal rsp) = inl c -> supported c = true -> clean cnonce = true ->
+    exists q hdr,
+      nth_error (digest_session H user pass (before ++ (true, first, rsp, cnonce) :: after)) (length before)
+        = Some [first; q] /\
+      w_auth q = Some hdr /\ w_body q = w_body first /\
+      rfc7616_accepts H c (w_uri first) (w_method first) user pass cnonce hdr = true.
+  Proof.
+    intros He Hs Hne Hp Hsup Hcn.
+    destruct (supported_is_answered H first rsp user pass cnonce c He Hs Hne Hp Hsup)
+      as [fs [q [Ha [Hx [Hq [Hb _]]]]]].
+    destruct (verifier_accepts c (w_uri first) (w_method first) user pass cnonce Hsup Hcn)
+      as [fs' [Ha' [_ Hacc]]].
+    rewrite Ha in Ha'. injection Ha' as <-.
+    exists q, (render_fields fs). rewrite session_independent, Hx. auto.
+  Qed.
 End WithH.
